@@ -622,7 +622,9 @@ func (vc *VC) applyContract(ins *ssa.Call, c *Contract, f *ssa.Function, sig *ty
 			comps := vc.elemComps(v)
 			_ = comps
 			rr, ro, rn := vc.regionOf(v)
-			if rn != "" && sEq(rn, off64(0)) != "false" && sEq(rn, off64(0)) != "true" {
+			if rn != "" && sEq(rn, off64(0)) == "true" {
+				// empty window (nil / zero-capacity slice): nothing can be written
+			} else if rn != "" && sEq(rn, off64(0)) != "false" {
 				// an empty callee window cannot be written
 				vc.checkFrameIfAt(sNot(sEq(rn, off64(0))), rr, ro, ins.Pos())
 			} else {
